@@ -408,7 +408,8 @@ def _check(run, pid):
         idxs = list(range(first + g0, first + min(g0 + group, nworlds)))
         worlds, objs = [], []
         for i in idxs:
-            ws, os_ = build_objects(seed * 100003 + i, 1, f"X{i}", aligned=sanitize, gindex=i)
+            with C.memory_guard():
+                ws, os_ = build_objects(seed * 100003 + i, 1, f"X{i}", aligned=sanitize, gindex=i)
             worlds += ws
             objs += os_
         classes = []
